@@ -64,6 +64,12 @@ func NewMultiClusterSubjectAccessReviewAuthorizer(clientProvider clusters.Client
 	}
 }
 
+// clusterCacheKey identifies the decision cache of a host served by a cluster
+type clusterCacheKey struct {
+	host    string
+	cluster *clusters.ClusterInfo
+}
+
 func (a *MultiClusterSubjectAccessReviewAuthorizer) Authorize(ctx context.Context, attr authorizer.Attributes) (authorized authorizer.Decision, reason string, err error) {
 	info, ok := request.ExtraRequestInfoFrom(ctx)
 	if !ok {
@@ -76,14 +82,17 @@ func (a *MultiClusterSubjectAccessReviewAuthorizer) Authorize(ctx context.Contex
 		return a.decisionOnError, "", err
 	}
 
-	c, loaded := a.caches.Load(host)
+	// the decisions cached for a host are those of the cluster serving it now: a
+	// server name can move to another cluster while both keep running
+	cacheKey := clusterCacheKey{host: host, cluster: cluster}
+	c, loaded := a.caches.Load(cacheKey)
 	if !loaded {
-		c, loaded = a.caches.LoadOrStore(host, cache.NewLRUExpireCache(8192))
+		c, loaded = a.caches.LoadOrStore(cacheKey, cache.NewLRUExpireCache(8192))
 		// destry cache when cluster stopped
 		if !loaded {
 			go func() {
 				<-cluster.Context().Done()
-				a.caches.Delete(host)
+				a.caches.Delete(cacheKey)
 			}()
 		}
 	}
